@@ -19,6 +19,10 @@ def run(tier, seed, prop='C17'):
     for ob in binding.obligations(only=('simulation',)):
         if any(x in ob.id for x in ('estimate_', 'percolat', 'get_infected_nodes', '_component_')):
             rep.add(ob)
+    from ..replay import sim_native
+    rep.bounded_is_supplementary = True
+    rep.add(util.native_ob('native:estimators-vs-brute-force', 'EoN/simulation.py:estimate_SIR_prob_size_from_dir_perc / builders', sim_native.c17_native,
+                           'every digraph on <= 3 nodes and 400 on 4 nodes vs networkx ancestors/descendants of a largest SCC; builders with tau=0 / gamma=0 and weights on/off (isolated node); estimate_SIR_prob_size at p=1'))
     rep.explanation = ('estimate_SIR_prob_size_from_dir_perc: the component used is a largest SCC of H (assumed networkx contract), PE*N is the '
                        'cardinality of {x | x reaches u} and AR*N that of {x | reachable from u} for a node u of it, both in [0,1]; '
                        '_in_component_/_out_component_: loop invariants over the union; estimate_SIR_prob_size: both outputs = largest component '
@@ -30,4 +34,4 @@ def run(tier, seed, prop='C17'):
                         'finite-cardinality facts (subset => at most as many elements) instantiated as lemmas',
                         'order(H) >= 1 (the empty graph raises ValueError in max(): outside the statement)']
     rep.not_covered += ['directed_percolate_network and get_infected_nodes bodies (binding only)']
-    return rep, None
+    return rep, util.native_replayer
